@@ -10,7 +10,7 @@ TRUSTED_BASE = [
 ]
 ALLOWED_AXIOMS = []     # the development is axiom-free; anything Print Assumptions lists is an alarm
 TABLES = False
-NEED_BINARY = False
+NEED_BINARY = True
 RELEASE_HARNESS = False
 HOOK_COMMITS = []
 NOT_YET = {}
@@ -82,6 +82,36 @@ PROPS = {
         "level_text": "Proved in Coq for every min/max combination (absent, min>max, beyond the range) and every per-level tile box: the filter returns the source's tile unchanged exactly inside the filter and nothing otherwise; chains are intersections; streams agree with lookups; the explicit hypothesis is that the child's coverage is sound (C03). Build-time handling of invalid geographic arguments (error, never panic; valid degenerate boxes accepted with non-empty tile boxes) is checked against the implementation at spec level.",
         "level_note": _PIPE_NOTE + " from_geo itself (f64, libm) is outside this model: the per-level tile boxes of a geographic bbox are taken from the implementation and handed to the model.",
         "partial": "argument validation (GeoBBox::check, VPLDecode extraction) is tested at spec level, not modelled",
+    },
+    "C04": {
+        "cmd": "c04",
+        "theorems": ["C04_blob", "C04_failure_only_on_undecodable_source", "C04_recompress", "C04_meta"],
+        "nontrivial": lambda l: not l.endswith("=> -") and not l.endswith(":same"),
+        "rule": "exhaustive decision tables run on the implementation and on the extracted model: new_tile_recompressor for all 3x3x2 (source, target, force) and optimize_compression for all 3 stored x 8 allowed-sets x 3 goals (declared encoding + whether the bytes were re-encoded); spec level: utils::recompress / process_blob on 6 payload classes (empty, 1 byte, 70 KiB incompressible, 200 KiB compressible, 999 bytes, JSON) x 3x3x2, and convert_tiles_container into versatiles/pmtiles/tar (thorough: + directory, mbtiles) for source compression x target {keep,none,gzip,brotli} x force, every output tile decoded with the DECLARED compression by independent inflaters (flate2/brotli crates called directly) and compared with the source payload; metadata read back. non-trivial = a combination that re-encodes",
+        "level_text": "Proved in Coq for ANY pair of lawful codecs (decomp(comp b) = b) and any payload: for all source/target compressions and the force flag the recompressor pipeline yields a blob that, decoded with the declared target compression, equals the source tile decoded with the source compression; it fails only when the source blob itself does not decode; utils::recompress and the metadata compress/decompress pair likewise. The decision functions are tied to the code exhaustively (all 18 + 72 rows compared on every run); gzip/brotli lawfulness on real payloads is tested by every conversion of the run.",
+        "level_note": "Trusted: Coq kernel; flate2/brotli satisfy decomp(comp b) = b (an explicit hypothesis of the theorems, tested not proved); hand model coq/Model/Recompress.v; extraction + driver; harness with independent inflaters. Print Assumptions: closed under the global context.",
+        "partial": "the codecs are abstract; that the converter applies the pipeline to every streamed tile is C14 + the end-to-end conversions",
+    },
+    "C05": {
+        "cmd": "c05", "binary": True,
+        "theorems": ["C05_gen_empty_path_guarded", "C05_status_total", "C05_status_200_iff", "C05_parsed_coordinate_valid", "C05_body",
+                     "C05_always_answers", "C05_images_not_recompressed", "C05_token_listed_allowed", "C05_accept_encoding_subsets"],
+        "nontrivial": lambda l: not l.endswith("=> 404"),
+        "rule": "raw HTTP/1.1 (TcpStream, no client-side normalisation) against the freshly built `versatiles serve` with 6 versatiles sources (png/pbf x 3 stored compressions), one mbtiles, one pmtiles, one tar source and an everywhere-defined source: (1) ~120 request paths (numeric/non-numeric parts, signs, leading zeros, suffixes, z up to 256, x/y up to 2^32, empty and repeated segments) on the everywhere-defined source, status compared with the Coq path model (one line each); (2) per source 17 coordinates (stored, missing, beyond the level, block border) x Accept-Encoding variants (all 326 ordered subsets of {gzip,br,deflate,identity,zstd} for three coordinates, 12 sampled for the others; plain, weighted, odd spacing, absent): status, Content-Type, Content-Encoding listed by the client, body decoded per Content-Encoding by independent inflaters equals the stored tile; every request must yield a complete response; tiles.json parsed. non-trivial = a line whose status is not 404",
+        "level_text": "Proved in Coq: the path handler always yields a status in {200,400,404} (never a dropped connection), 200 exactly when the path parses to a coordinate where the source holds a tile; parsed coordinates are valid; for any lawful codecs the negotiated (body, Content-Encoding) pair is allowed by the client and decodes to the stored tile, an answer always exists, images are never re-compressed; a listed token always enables its encoding and on all 326 ordered token selections the substring test equals token membership. Tied to the code by the scraped empty-path guard, the exhaustive optimize_compression table (C04 check) and raw HTTP exchanges with the built binary.",
+        "level_note": "Trusted: Coq kernel; models coq/Model/Http.v (ASCII request paths; axum/hyper routing and header handling are exercised, not modelled) and Recompress.v; gzip/brotli lawfulness (tested); harness raw-socket client; the built binary is the debug profile with overflow checks. Print Assumptions: closed.",
+        "partial": "axum/hyper internals, non-ASCII `is_numeric` characters in y, q=0 weights (the property only speaks of positive weights)",
+        "harness_timeout": 1200,
+    },
+    "C07": {
+        "cmd": "c07", "binary": True,
+        "theorems": ["C07_gen_guard_refuses_parent_dir", "C07_folder_confined", "C07_tar_confined"],
+        "nontrivial": lambda l: not l.endswith("=> none"),
+        "rule": "raw HTTP requests against `versatiles serve -s <dir>`, `-s [/assets/]<dir>`, `-s <tar>`, `-s [/assets/]<tar>` with canary files outside the root (parent directory, sibling directory whose name extends the root's): hand-picked traversal attempts (.., %2e%2e, ..%2f, backslash, leading //abs, ///abs) plus 1500 (thorough 12000) random sequences of 1-5 segments over {sub, file.txt, ., .., empty, %2e%2e, %2f, secret.txt, www-private, ..%2f, absolute path}; a response body containing a canary is a violation; for the plain folder root every target is also evaluated by the Coq model (which file is served, if any) and compared. non-trivial = a line that serves a file",
+        "level_text": "Proved in Coq for every request path (any sequence of segments, absolute remainders that replace the root, percent-encoded text kept literal): if the folder source's guard lets the joined path through, the file the OS opens (with '..' resolved) lies below the configured root; the tar source only returns entries of its table. The lexical-only guard of the pinned source is refuted by the witness /../secret. Tie: the guard variant is regenerated from static_source_folder.rs, every generated target is served by the real binary and compared with the model's verdict, canaries detect any escape.",
+        "level_note": "Trusted: Coq kernel; model coq/Model/StaticPath.v of Path::join / components / starts_with and of OS path resolution (validated by the same runs); symbolic links inside the root are outside the model; harness. Print Assumptions: closed.",
+        "partial": "symlinks; OS path resolution is an assumption of the model",
+        "harness_timeout": 1200,
     },
     "C13": {
         "cmd": "c13",
